@@ -345,6 +345,10 @@ def run(ctx, rep) -> None:
 
     rep.attempt("stateful_cursors_advance", stateful_cursors_advance, ctx, rep, "C06.3")
     rep.attempt("sibling_pairs", sibling_pairs, ctx, rep, "C06.4", [p for p in dist_pairs() if DDP in p[:2]])
+    from .c14 import buffer_layout_semantics, split_semantics
+
+    rep.attempt("split_semantics", split_semantics, ctx, rep, "C06.4", [DDP])
+    rep.attempt("buffer_layout_semantics", buffer_layout_semantics, ctx, rep, "C06.4", [DDP])
     rep.assume("numerical equality with the serial optimizer and the rounding bound for reduced-precision communication are NOT decided")
 
 
